@@ -417,6 +417,7 @@ func init() {
 		"vAtomicEnd":      vAtomicEnd,
 		"vLiveGoroutines": vLiveGoroutines,
 		"vUF32":           vUF32,
+		"vSyncMapSnapshot": vSyncMapSnapshot,
 		"vSymString":      vSymString,
 		"vBytes":          vBytes,
 		"vBytesEqual":     vBytesEqual,
@@ -672,6 +673,24 @@ func vLiveGoroutines(c *icall) {
 		}
 	}
 	c.ret(BV(64, uint64(n)))
+}
+
+// vSyncMapSnapshot(m *sync.Map) []interface{}: keys and values of the modelled map, alternating,
+// read in one atomic transition (the Go-level stub of Range iterates over this snapshot).
+func vSyncMapSnapshot(c *icall) {
+	_, m := syncMapOp(c, false)
+	var tu Tuple
+	if m != nil {
+		for _, en := range m.Entries {
+			tu = append(tu, en.K, en.V)
+		}
+	}
+	if len(tu) == 0 {
+		c.ret(Slice{})
+		return
+	}
+	id := c.st.alloc(c.g, tu)
+	c.ret(Slice{Base: Ptr{Obj: id}, Len: len(tu), Cap: len(tu)})
 }
 
 func vUF32(c *icall) {
